@@ -1070,7 +1070,7 @@ func (v *fnVC) stableCells(li *loopInfo, pre map[string]T) {
 func (v *fnVC) mapLen(m T, mt *types.Map, snap map[string]T) T {
 	md, _, ks, _ := v.mapMems(mt)
 	fn := "card_" + sanitize(ks)
-	v.P.add(fn, fmt.Sprintf("(declare-fun %[1]s ((Array %[2]s Bool)) Int)\n(assert (forall ((d (Array %[2]s Bool))) (! (>= (%[1]s d) 0) :pattern ((%[1]s d)))))\n(assert (forall ((d (Array %[2]s Bool)) (k %[2]s)) (! (=> (= (%[1]s d) 0) (not (select d k))) :pattern ((%[1]s d) (select d k)))))\n(assert (= (%[1]s ((as const (Array %[2]s Bool)) false)) 0))", fn, ks))
+	v.P.add(fn, fmt.Sprintf("(declare-fun %[1]s ((Array %[2]s Bool)) Int)\n(assert (forall ((d (Array %[2]s Bool))) (! (and (>= (%[1]s d) 0) (<= (%[1]s d) 9223372036854775807)) :pattern ((%[1]s d)))))\n(assert (forall ((d (Array %[2]s Bool)) (k %[2]s)) (! (=> (= (%[1]s d) 0) (not (select d k))) :pattern ((%[1]s d) (select d k)))))\n(assert (= (%[1]s ((as const (Array %[2]s Bool)) false)) 0))", fn, ks))
 	var mem T
 	if snap != nil {
 		if x, ok := snap[md]; ok {
